@@ -13,6 +13,8 @@
 //   without a suffix the message is formatted once by A.format(m)
 // argv[1] = name of a QTextCodec to install with QTextCodec::setCodecForLocale first ("-" = leave the default): the
 //   event text must not depend on the locale codec of the process
+// argv[2] argv[3] (optional, hex UTF-16 units, "-" = empty string) = the sdkName / sdkVersion constructor arguments of the own objects A and B
+//   (also of the re-created A); absent = the default arguments.  SentryFormatter::instance() always has the defaults.
 // output line: <time().toMSecsSinceEpoch()> <threadId> <hex of qVersion()> <hex of record>...
 #ifdef VERIF_HEADER_ONLY
 #include "qtlogger.h"
@@ -89,11 +91,14 @@ int main(int argc, char **argv)
         QTextCodec::setCodecForLocale(codec);
     }
     std::string line;
-    SentryFormatterPtr fa = SentryFormatterPtr::create(), fb = SentryFormatterPtr::create();
+    const bool sdkArgs = argc > 3;
+    const QString sdkName = sdkArgs ? unhex(argv[2]) : QString(), sdkVersion = sdkArgs ? unhex(argv[3]) : QString();
+    auto make = [&]() { return sdkArgs ? SentryFormatterPtr::create(sdkName, sdkVersion) : SentryFormatterPtr::create(); };
+    SentryFormatterPtr fa = make(), fb = make();
     auto formatter = [&](int sel) -> SentryFormatterPtr {
         if (sel == 1) return fb;
         if (sel == 2) return SentryFormatter::instance();
-        if (sel == 3) { fa.reset(); fa = SentryFormatterPtr::create(); }
+        if (sel == 3) { fa.reset(); fa = make(); }
         return fa;
     };
     while (std::getline(std::cin, line)) {
